@@ -42,6 +42,14 @@ class UserError(TartifletteError):
     """a library-derived exception raised by resolvers (C02 iv)"""
 
 
+class CtorError(TartifletteError):
+    """a library-derived exception whose constructor signature differs from Exception.args (copy.copy cannot rebuild it)"""
+
+    def __init__(self, where, code):
+        super().__init__("dev message ctor", user_message="ctor user message %s" % (where,), extensions={"code": code, "where": where})
+        self.where = where
+
+
 SHARED_ERROR = None
 SHARED_PLAIN_ERROR = None
 
@@ -89,6 +97,8 @@ def make_resolver(fq):
                 raise SHARED_ERROR
             if fault == "raise_shared_plain":
                 raise SHARED_PLAIN_ERROR
+            if fault == "raise_te_ctor":
+                raise CtorError(list(path), "CTOR")
             if fault == "return_exc":
                 return Exception("returned at %s" % (list(path),))
             if fault == "none":
